@@ -544,6 +544,9 @@ def judge_c10(mb, run, result):
         elif fc.get('parent_ok') != '1':
             out.append(Violation('final-construct:parent-not-recorded', f"parent mode {run['parent']}"))
         else:
+            again = h.first('fc_again')
+            if again is not None and (again['result'] != 'ok' or again.get('parent_ok') != '1'):
+                out.append(Violation('final-construct:parent-not-recorded', f"second FinalConstruct with the other parent argument: {again}"))
             if mb.mc and run['probes']:
                 pr = h.first('probe_register_after_fc')
                 if pr is None or pr['result'] != 'throw':
